@@ -18,6 +18,7 @@ theorem facts_rewriter_rewrite :
     Extracted.h_rewriter_rewrite___rewriter_assert = Expect.h_rewriter_rewrite___rewriter_assert ∧
     Extracted.h_rewriter_rewrite___rewriter_rewriteAllFiles = Expect.h_rewriter_rewrite___rewriter_rewriteAllFiles ∧
     Extracted.h_rewriter_rewrite___rewriter_rewriteFile = Expect.h_rewriter_rewrite___rewriter_rewriteFile ∧
+    Extracted.h_rewriter_rewrite___rewriter_mkRejectYieldValue = Expect.h_rewriter_rewrite___rewriter_mkRejectYieldValue ∧
     Extracted.h_rewriter_rewrite___rewriter_collectYieldFunc = Expect.h_rewriter_rewrite___rewriter_collectYieldFunc ∧
     Extracted.h_rewriter_rewrite___rewriter_attachComment = Expect.h_rewriter_rewrite___rewriter_attachComment ∧
     Extracted.h_rewriter_rewrite___rewriter_rewriteForRanges = Expect.h_rewriter_rewrite___rewriter_rewriteForRanges ∧
